@@ -406,6 +406,9 @@ pub struct Shape {
     /// a map key sval_json refuses (`invalid key`): sequence, tuple, map, struct, bytes, or an enum
     /// variant that carries data
     pub json_bad_key: bool,
+    /// a tagged key (see `tagged_key`) whose VALUE opens with a label or index — a struct, an enum
+    /// variant, `Some(..)`: the exact shape that makes sval_json 2.22 write unbalanced braces
+    pub tagged_key_labelled_value: bool,
     pub wide_int: bool,
     pub non_finite: bool,
     pub exotic: bool,
@@ -421,6 +424,7 @@ impl Shape {
         self.odd_key |= o.odd_key;
         self.tagged_key |= o.tagged_key;
         self.json_bad_key |= o.json_bad_key;
+        self.tagged_key_labelled_value |= o.tagged_key_labelled_value;
         self.wide_int |= o.wide_int;
         self.non_finite |= o.non_finite;
         self.exotic |= o.exotic;
@@ -537,6 +541,9 @@ pub fn shape(n: &Node) -> Shape {
                 }
                 if matches!(k, Node::Some(_) | Node::Variant { .. }) {
                     s.tagged_key = true;
+                    if matches!(v, Node::Struct { .. } | Node::Variant { .. } | Node::Some(_)) {
+                        s.tagged_key_labelled_value = true;
+                    }
                 }
                 if json_bad_key(k) {
                     s.json_bad_key = true;
